@@ -11,6 +11,7 @@
 mod blob;
 mod e2e;
 mod model;
+mod probe;
 mod tbl;
 mod unit;
 
@@ -46,6 +47,10 @@ fn main() {
                 blob::run(&args, &mut sink, &mut rng.fork());
             }
             sink.finish();
+            0
+        }
+        "probe-stale" => {
+            probe::stale_commit();
             0
         }
         "probe-blob" => {
